@@ -381,10 +381,9 @@ func (dn *dirNode) size() int64 {
 // delete removes all information from the node, decrements the reference counter of the fileNode.
 // If there is no more references, the data is deleted.
 func (fn *fileNode) delete() {
+	// The data is kept: open handles keep working on a file whose last name is gone,
+	// the node is garbage collected with its last handle.
 	fn.nlink--
-	if fn.nlink == 0 {
-		fn.data = nil
-	}
 }
 
 // fillStatFrom returns a MemInfo (implementation of fs.FileInfo) from a fileNode fn named name.
